@@ -202,16 +202,24 @@ Definition element_of (a : attrs) : option pystr :=
   match aget (S "element") a with Some (VStr s) => Some s | _ => None end.
 Fixpoint index_z (k : Z) (l : list Z) (i : Z) : option Z :=
   match l with [] => None | x :: r => if Z.eqb x k then Some i else index_z k r (i + 1) end.
-(** atom name = element + running index in (one of) its coarse node(s) *)
+(** atom name = element + decimal index; in a coarse node WITHOUT shared atom the index is the position of the atom
+    in the coarse node (repaired set_atom_names_atomistic, /repo 8dbd471: a shared atom keeps the name of its first
+    coarse node and later indices step over taken names) *)
+Definition digits_suffix (el nm : pystr) : bool := prefixb el nm && py_isdigit (skipn (length el) nm).
+Definition node_shared (mol : graph) (k : Z) : bool :=
+  match node_attrs mol k with Ok a => shared a | Err _ => false end.
+Definition positional_names (mol g : graph) : bool :=
+  forallb (fun ni => match node_attrs mol (fst ni) with
+                     | Ok a => match atomname_of a, element_of a with
+                               | Some nm, Some el => str_eqb nm (el ++ str_of_Z (snd ni))
+                               | _, _ => false end
+                     | Err _ => false end)
+          (combine (node_keys g) (map Z.of_nat (seq 0 (length g)))).
 Definition names_element_index (mol : graph) (fgs : fgraphs) : bool :=
-  forallb (fun n =>
-    match atomname_of (na n), element_of (na n) with
-    | Some nm, Some el =>
-        existsb (fun kg => match index_z (nk n) (node_keys (snd kg)) 0 with
-                           | Some i => str_eqb nm (el ++ str_of_Z i)
-                           | None => false end) fgs
-    | _, _ => false
-    end) mol.
+  forallb (fun n => match atomname_of (na n), element_of (na n) with
+                    | Some nm, Some el => digits_suffix el nm
+                    | _, _ => false end) mol
+  && forallb (fun kg => existsb (node_shared mol) (node_keys (snd kg)) || positional_names mol (snd kg)) fgs.
 Fixpoint str_nodupb (l : list pystr) : bool :=
   match l with [] => true | x :: r => negb (str_in x r) && str_nodupb r end.
 (** names unique within each coarse node (names read from the returned fine graph) *)
@@ -221,3 +229,15 @@ Definition names_unique (mol : graph) (fgs : fgraphs) : bool :=
                                    | Ok a => match atomname_of a with Some s => [s] | None => [] end
                                    | Err _ => [] end) (node_keys (snd kg)))) fgs.
 Definition has_shared (mol : graph) : bool := existsb (fun n => shared (na n)) mol.
+(** residual defect class of the atom naming: a coarse node holds two atoms that were first named in two DIFFERENT
+    earlier coarse nodes (their names were chosen independently and may coincide) *)
+Fixpoint first_owner (n : Z) (fgs : fgraphs) : option Z :=
+  match fgs with [] => None | (k, g) :: r => if has_node g n then Some k else first_owner n r end.
+Definition foreign_owners (fgs : fgraphs) (kg : Z * graph) : list Z :=
+  flat_map (fun n => match first_owner n fgs with
+                     | Some k => if Z.eqb k (fst kg) then [] else [k]
+                     | None => [] end) (node_keys (snd kg)).
+Definition two_owners (fgs : fgraphs) : bool :=
+  existsb (fun kg => match foreign_owners fgs kg with
+                     | [] => false
+                     | k :: r => existsb (fun k' => negb (Z.eqb k k')) r end) fgs.
